@@ -1243,7 +1243,8 @@ fn ser_plain(p: &NtpPacket, cap: usize) -> Result<Vec<u8>, &'static str> {
     }
 }
 
-const RT_CAP: usize = 65536;
+/// large enough for two maximal extension fields (the decoder accepts any byte string; no datagram limit here)
+const RT_CAP: usize = 262144;
 
 /// C24: `b -> p -> b1 -> q -> b2 -> q2`, all without keys.  The oracle states the property directly:
 /// an accepted packet re-encodes, the re-encoding is accepted, and from there bytes and packet are stable.
@@ -1491,6 +1492,59 @@ fn corpus_c24() -> Vec<Vec<String>> {
             }
         }
     }
+    // HUGE fields: the decoder accepts 16-bit field lengths up to 65535 (v5: any value; v4: multiples of 4), the
+    // property is quantified over every accepted byte string, so the encoder limits must agree at the top end
+    let big_body = |ty: u16, l: usize| -> Vec<u8> {
+        if ty == T_PH {
+            vec![0u8; l]
+        } else {
+            // ASCII only (a draft identification must be), first two bytes = a reference-id offset
+            (0..l).map(|i| ((i * 7 + 1) % 127) as u8).collect::<Vec<u8>>()
+        }
+    };
+    for flen in 65528usize..=65535 {
+        for &ty in &[0x1234u16, T_UID, T_COOKIE, T_PH, T_DRAFT, T_PAD, T_RREQ, T_RRESP] {
+            // every length for the generic encoder (unknown, unique id); the other kinds at the corners
+            if !(ty == 0x1234 || ty == T_UID || [65528, 65532, 65533, 65535].contains(&flen)) {
+                continue;
+            }
+            let mut w = hdr(0x2b);
+            w.extend(&draft);
+            w.extend(raw_field(ty, flen, &big_body(ty, flen - 4), true));
+            cases.push(w);
+        }
+    }
+    for &flen in &[65528usize, 65532] {
+        for &ty in &[0x1234u16, T_UID, T_COOKIE, T_PH, T_DRAFT] {
+            let mut w = hdr(0x23);
+            w.extend(raw_field(ty, flen, &big_body(ty, flen - 4), true));
+            if ty == T_COOKIE {
+                w.extend(vec![7u8; 20]);
+            }
+            cases.push(w);
+        }
+    }
+    // two fields straddling the 16-bit range
+    let mut w = hdr(0x2b);
+    w.extend(&draft);
+    w.extend(raw_field(T_UID, 65533, &big_body(T_UID, 65529), true));
+    w.extend(raw_field(0x1234, 65535, &big_body(0x1234, 65531), true));
+    cases.push(w);
+    let mut w = hdr(0x2b);
+    w.extend(raw_field(T_COOKIE, 65535, &big_body(T_COOKIE, 65531), true));
+    w.extend(&draft);
+    w.extend(raw_field(T_RRESP, 5, &[1], true));
+    cases.push(w);
+    let mut w = hdr(0x2b);
+    w.extend(&draft);
+    w.extend(raw_field(T_UID, 32768, &big_body(T_UID, 32764), true));
+    w.extend(raw_field(T_PH, 32771, &big_body(T_PH, 32767), true));
+    cases.push(w);
+    let mut w = hdr(0x23);
+    w.extend(raw_field(T_UID, 65532, &big_body(T_UID, 65528), true));
+    w.extend(raw_field(0x1234, 65532, &big_body(0x1234, 65528), true));
+    w.extend(vec![7u8; 24]);
+    cases.push(w);
     cases.into_iter().map(|c| vec![draftver_op(), format!("rt {}", hex(&c))]).collect()
 }
 
@@ -1535,7 +1589,7 @@ fn entry() {
         ),
         "c24_roundtrip" => drive_with_corpus(
             "c24_roundtrip",
-            "corpus first (F-C24 witnesses, header-only packets, cut-off and padding corners); then key-less v3/v4/v5 packets: random header, 0-6 plain fields of all nine kinds with boundary lengths, draft id for v5, MAC tails of 0-30 bytes, sometimes lightly damaged; each is taken through b -> p -> b1 -> q -> b2 -> q2; non-trivial = accepted and stable; distinct by version + normalisation kind + field-kind shape",
+            "corpus first (F-C24 witnesses, header-only packets, cut-off and padding corners, HUGE fields: one field of total length 65528..65535 for every kind under v5 and 65528/65532 under v4, two-field packets straddling 65535, buffer 262144); then key-less v3/v4/v5 packets: random header, 0-6 plain fields of all nine kinds with boundary lengths, draft id for v5, MAC tails of 0-30 bytes, sometimes lightly damaged; each is taken through b -> p -> b1 -> q -> b2 -> q2; non-trivial = accepted and stable; distinct by version + normalisation kind + field-kind shape",
             corpus_c24(),
             gen_c24_case,
         ),
